@@ -22,7 +22,7 @@ RULE = (
     "Typed grammar (int / bool / seq / seq-of-seq / result) rendered as source text, every operator drawn in method "
     "form or function form independently at every depth (sources, lambda bodies, arguments, callee expressions, directly as the seed argument of Aggregate), with look-alike "
     "non-operator methods (Select2, count, ResultParquet, Zip, select, Wheres) and non-call attribute references "
-    "(x.Select as a value). Non-trivial = >=2 method-form operator calls at different depths AND >=1 look-alike or "
+    "(x.Select as a value); in a fifth of the cases the caller passes its own list of known operator names (any subset, also the empty one). Non-trivial = >=2 method-form operator calls at different depths AND >=1 look-alike or "
     "attribute reference. Distinct by source text + data."
 )
 ASSUMPTIONS = [
@@ -89,6 +89,8 @@ def _env(data):
         Sum=lambda s: sum(s),
         Max=lambda s: max(s),
         Min=lambda s: min(s),
+        Select2=lambda s, f: _x(s).Select2(f),  # function forms of two look-alikes: a caller may declare them operators
+        count=lambda s: _x(s).count(),
         keep=lambda f, v: v,
         kw=lambda v, w=0: v,
         ident=lambda f: f,
@@ -207,7 +209,11 @@ def _case(draw, maxdepth):
         "ss0": draw(st.lists(_ints1 if draw(st.booleans()) else _ints, min_size=draw(st.integers(0, 1)), max_size=3)),
         "n0": draw(st.integers(-3, 5)),
     }
-    return {"src": src, "data": data}
+    case = {"src": src, "data": data}
+    if draw(st.integers(0, 4)) == 0:
+        # the caller may say which operator names are known (second parameter of the function): any subset, also the empty one
+        case["names"] = draw(st.one_of(st.just([]), st.lists(st.sampled_from(OPS + ["Select2", "count"]), unique=True, max_size=6)))
+    return case
 
 
 def strategy(tier):
@@ -254,19 +260,22 @@ def exhaustive(tier):
         yield {"src": pos.replace("{X}", x), "data": data}
 
 
-def _reference(tree):
+def _reference(tree, names=None):
+    names = OPS if names is None else names
+
     class R(ast.NodeTransformer):
         def visit_Call(self, n):
             self.generic_visit(n)
-            if isinstance(n.func, ast.Attribute) and n.func.attr in OPS:
+            if isinstance(n.func, ast.Attribute) and n.func.attr in names:
                 return ast.Call(func=ast.Name(id=n.func.attr, ctx=ast.Load()), args=[n.func.value] + list(n.args), keywords=[])
             return n
 
     return R().visit(copy.deepcopy(tree))
 
 
-def _method_ops(tree):
-    return [n for n in ast.walk(tree) if isinstance(n, ast.Call) and isinstance(n.func, ast.Attribute) and n.func.attr in OPS]
+def _method_ops(tree, names=None):
+    names = OPS if names is None else names
+    return [n for n in ast.walk(tree) if isinstance(n, ast.Call) and isinstance(n.func, ast.Attribute) and n.func.attr in names]
 
 
 def _depths(tree):
@@ -313,20 +322,24 @@ def check(case) -> Result:
         expect = None
         r.ref_error = True
 
-    ref = _reference(tree)
+    names = case.get("names")
+    if names is not None:
+        r.labels.append("custom-operator-names:" + ("empty" if not names else "subset"))
+    call = (lambda t: change_extension_functions_to_calls(t)) if names is None else (lambda t: change_extension_functions_to_calls(t, list(names)))
+    ref = _reference(tree, names)
     try:
-        got = change_extension_functions_to_calls(copy.deepcopy(tree))
+        got = call(copy.deepcopy(tree))
     except Exception as e:
         return r.fail(f"change_extension_functions_to_calls raised {type(e).__name__}: {e} on {case['src']}")
     if not isinstance(got, ast.AST):
         return r.fail(f"returned {got!r}")
     if ast.dump(got) != ast.dump(ref):
         return r.fail(f"structure differs from Op(seq, args...) reference: input {case['src']} -> {_unp(got)}; expected {_unp(ref)}")
-    left = _method_ops(got)
+    left = _method_ops(got, names)
     if left:
         return r.fail(f"method-form operator call left: {_unp(left[0])}")
     try:
-        again = change_extension_functions_to_calls(copy.deepcopy(got))
+        again = call(copy.deepcopy(got))
     except Exception as e:
         return r.fail(f"second application raised {type(e).__name__}: {e}")
     if ast.dump(again) != ast.dump(got):
